@@ -58,7 +58,7 @@ def _run(prog, chk):
         fn = prog.fn("KSI_Config_consolidate" + suffix, "net_ha.c")
         hap, rsp, upd = [p["n"] for p in fn.params]
         hvals = ["absent", lo, lo + 7] + ([hi] if hi is not None else [lo + 100000])
-        firsts = ["absent", lo + 3] if suffix == "CalendarLastTime" else [None]
+        firsts = ["absent", lo + 3, lo + 400000000] if suffix == "CalendarLastTime" else [None]
         for h, r, first in itertools.product(hvals, ["absent"] + reps(lo, hi), firsts):
             sets = []
 
@@ -98,10 +98,9 @@ def _run(prog, chk):
             q = paths[0]
             took = any(s[0] == Ptr("HA") and s[1] == Ptr("rv") for s in sets)
             flagged = any(s[2] == 1 for s in q.stores("*" + upd))
-            if suffix == "CalendarLastTime" and first not in (None, "absent") and r != "absent" and r < first:
-                # a last time that precedes the consolidated first time may additionally be discarded; the
-                # statement does not fix this case, so it is not judged
-                continue
+            # the consolidated first time is a dimension of the last-time table precisely because it must NOT matter: a pushed
+            # last time judged against the first time consolidated so far makes {first=F} then {last=L<F} differ from the
+            # opposite arrival order (F44)
             valid = r != "absent" and r != 0 and r >= lo and (hi is None or r <= hi)
             if not valid:
                 want = False
